@@ -567,12 +567,14 @@ func valueCanon(rs []sm.Record) string {
 	return b.String()
 }
 
-// matchesModel compares the records read back with the model's prediction.
+// matchesModel compares the records read back with the model's prediction. A new record may sit at
+// any position that keeps an ascending file ascending ("its chronological position": among records
+// of the same date either side is chronological); in an unsorted file anywhere, as long as the old
+// records keep their relative order.
 func matchesModel(after []sm.Record, m ModelResult) bool {
-	if !m.AnyPos || m.NewAt < 0 {
+	if m.NewAt < 0 {
 		return valueCanon(after) == valueCanon(m.Records)
 	}
-	// unsorted file: the new record may sit anywhere, the old ones keep their relative order
 	if len(after) != len(m.Records) {
 		return false
 	}
@@ -583,7 +585,7 @@ func matchesModel(after []sm.Record, m ModelResult) bool {
 			continue
 		}
 		rest := append(append([]sm.Record{}, after[:p]...), after[p+1:]...)
-		if valueCanon(rest) == valueCanon(old) {
+		if valueCanon(rest) == valueCanon(old) && (m.AnyPos || sortedAscending(after)) {
 			return true
 		}
 	}
